@@ -329,7 +329,10 @@ func (r *vRun) checkSide(step int, call vCall, side *vSide, tx gorp.Tx, full boo
 			if !ok {
 				n = "?" + p.Name
 			}
-			got = append(got, n)
+			// a policy reachable through two roles is returned twice: compared as a set
+			if !inSet(got, n) {
+				got = append(got, n)
+			}
 		}
 		sort.Strings(got)
 		want := append([]string{}, side.Q[s]...)
@@ -497,26 +500,31 @@ func vReplay(ctx context.Context, e *vEnv, idx int, hist []vStep, seed int64, fr
 			res.R, res.Note = "inconclusive", "unknown call "+c.A
 			return
 		}
-		if (err == nil) != c.OK && res.Drift == nil {
+		if (err == nil) != c.OK {
+			// the call itself behaved differently from the model: the model's state is no
+			// longer a reference for what follows -> drift, stop this history
 			got := "ok"
 			if err != nil {
 				got = "error: " + firstLine(err.Error())
 			}
-			res.Drift = &vMis{Step: i, Call: c.A, View: "tx", Kind: "result", Exp: fmt.Sprint("ok=", c.OK), Got: got}
+			if res.Drift == nil || res.Drift.Kind != "result" {
+				res.Drift = &vMis{Step: i, Call: c.A, View: "tx", Kind: "result", Exp: fmt.Sprint("ok=", c.OK), Got: got}
+			}
+			break
 		}
 		if len(st.C) > 0 {
 			lastCom = &st.C[0]
 		}
-		if st.Skip && !(i == 0 && fresh) && res.Drift == nil {
+		if st.Skip && !(i == 0 && fresh) {
 			continue
 		}
-		if res.Drift == nil {
-			r.checkSide(i, c, &st.V, tx, true)
-		}
-		if res.Drift == nil && res.Bad == nil {
+		// A disagreement on stored facts or policy sets (drift) does not stop the history:
+		// the property-level expectation is fixed by the sequence of successful calls.
+		r.checkSide(i, c, &st.V, tx, true)
+		if res.Bad == nil {
 			r.checkSide(i, c, lastCom, nil, c.A == "commit" || c.A == "init")
 		}
-		if res.Bad != nil || res.Drift != nil {
+		if res.Bad != nil {
 			break
 		}
 	}
